@@ -1,8 +1,14 @@
 import Driver.Util
-import PytezosModel.Client.Merkle
+import PytezosModel.Client.MerkleText
+import PytezosModel.Crypto.RealHash
 open Driver
 
-/-! The model is run with a cheap deterministic 32-byte "hash" (FNV-1a absorption, four multiply-xorshift squeezes);
+/-! Two layers.  `RL` / `RLL` / `RP`: the three public functions end to end (`Impl.MerkleText`) with the executable
+BLAKE2b-256 and double SHA-256 (`RealHash`): Base58Check strings in, the `Lo…` / `LLo…` / `vh…` text out, to be compared
+with what the unpatched pytezos functions return.  `L` / `LL` / `P`: the raw layer (`Impl.Merkle`) with a toy hash, which
+exercises the tree structure independently of BLAKE2b:
+
+The raw model is run with a cheap deterministic 32-byte "hash" (FNV-1a absorption, four multiply-xorshift squeezes);
 the harness installs the same function in place of `blake2b` inside `pytezos.crypto.hash`, so both sides build the
 same tree.  (The theorems are about an arbitrary `H`; the real BLAKE2b run is the oracle stream of the harness.) -/
 
@@ -40,7 +46,20 @@ def readGroups : Nat → List String → Option (List (List (List Nat)))
       let more ← readGroups n (rest.drop c)
       pure (items :: more)
 
-/-- lines: `L <item>…` · `LL <ngroups> (<len> <item>…)…` · `P <pred> <round> <item>…` (hex items; `-` = empty) -/
+def errName : Impl.MerkleText.Err → String
+  | .unrecognisedSource => "unrecognised-source"
+  | .b58 _ => "ValueError"
+  | .overflow => "OverflowError"
+  | .index => "IndexError"
+
+def outText (r : Except Impl.MerkleText.Err (List Nat)) : String :=
+  match r with
+  | .ok s => "ok " ++ toHex s
+  | .error e => "err " ++ errName e
+
+/-- lines: `L <item>…` · `LL <ngroups> (<len> <item>…)…` · `P <pred> <round> <item>…` (hex items; `-` = empty): raw
+layer, toy hash;  `RL` / `RLL` / `RP`: same shapes, items = Base58Check strings (hex of the ASCII text), real hashes,
+output `ok <text hex>` | `err ValueError` | `err OverflowError` -/
 def handle (line : String) : String :=
   match words line with
   | "L" :: items =>
@@ -57,6 +76,27 @@ def handle (line : String) : String :=
       match round.toNat? with
       | some r => out (Impl.Merkle.blockPayloadRaw toyHash p r xs)
       | none => if round.startsWith "-" then "error" else "bad-op"   -- negative round: OverflowError
+    | _, _ => "bad-op"
+  | "RL" :: items =>
+    match items.mapM parseHex with
+    | some xs => outText (Impl.MerkleText.operationListHash RealHash.cks RealHash.blake xs)
+    | none => "bad-op"
+  | "RLL" :: n :: rest =>
+    match n.toNat?.bind (fun n => readGroups n rest) with
+    | some xss => outText (Impl.MerkleText.operationListListHash RealHash.cks RealHash.blake xss)
+    | none => "bad-op"
+  | "RP" :: pred :: round :: items =>
+    match parseHex pred, items.mapM parseHex with
+    | some p, some xs =>
+      match round.toNat? with
+      | some r => outText (Impl.MerkleText.blockPayloadHash RealHash.cks RealHash.blake p r xs)
+      | none =>
+        -- negative round: `to_bytes` raises OverflowError, after the predecessor has been decoded
+        if round.startsWith "-" then
+          match Impl.Encoding.base58Decode RealHash.cks p with
+          | .error _ => "err ValueError"
+          | .ok _ => "err OverflowError"
+        else "bad-op"
     | _, _ => "bad-op"
   | _ => "bad-op"
 
